@@ -24,6 +24,7 @@ VALID = {
     'even': lambda x: sum(1 for v in x.values() if v in (1,)) % 2 == 0,
     'differ': lambda x: len(x) < 2 or list(x.values())[0] != list(x.values())[1],
     'first_set': None,
+    'sees_model': lambda x: True,
 }
 
 
@@ -55,16 +56,37 @@ def make_bf(ctx, src, fn, n, U, allsol, valid, B=0, method=False, stale=False, b
         mvars = set(D.variables) if hasattr(D, 'variables') else {i for k in D for i in k}
         if all(k == () for k in D):
             mvars = set()       # constant model: the statement promises the empty assignment
+        import copy as _copy
+        had_offset = () in D
+        pred = vfn
+        if valid == 'sees_model':
+            # a predicate that looks at the model while it is being solved: it must see the model it was given (offset included)
+            pred = lambda x: (() in D) == had_offset      # noqa
         if method:
             res = D.solve_bruteforce(allsol)
             res = (None, res)
         else:
-            res = f(D, allsol, vfn)
-        return D, before, O.snapshot(D), mvars, res
+            res = f(D, allsol, pred)
+        first = _copy.deepcopy(res)
+        # history: the caller edits the returned solution(s) in place, then solves the same model again
+        sol = res[1]
+        try:
+            if isinstance(sol, dict): sol['__caller_edit__'] = 7
+            elif isinstance(sol, list):
+                for x in sol:
+                    if isinstance(x, dict): x['__caller_edit__'] = 7
+                sol.append({'__caller_edit__': 7})
+        except Exception:       # noqa
+            pass
+        again = (None, D.solve_bruteforce(allsol)) if method else f(D, allsol, pred)
+        a0, a1 = first, again
+        eq_again = (type(a0[1]) is type(a1[1])) and (a0[1] == a1[1]) and ((a0[0] is None) == (a1[0] is None))
+        return D, before, O.snapshot(D), mvars, first, bool(eq_again)
 
     def check(res):
-        D, before, after, mvars, (obj, sol) = res
-        obs = [Ob('argument unchanged', before == after)]
+        D, before, after, mvars, (obj, sol), eq_again = res
+        obs = [Ob('argument unchanged', before == after),
+               Ob('solving the same model again after the caller edited the first result gives the same result', eq_again, sig='second call polluted by edits of the first result')]
         mv = sorted(mvars, key=repr)
         allx = list(O.assigns(mv, spin))
         vx = [x for x in allx if (True if method else vfn(x))]
@@ -130,6 +152,8 @@ def jobs(tier, seed):
             if src in ('dict', srcs[1]):
                 add(src, fn, 2, d2, True, 'always', B=1, big=10 ** 10)
                 add(src, fn, 2, d2, False, 'first_set')
+                add(src, fn, 2, d2, False, 'sees_model')
+                add(src, fn, 2, d2, True, 'sees_model', B=1)
                 add(src, fn, 3, [(0, 1), (1, 2), (0, 2)] if not deg3 else [(0, 1), (1, 2), (0, 1, 2, 0)][:2] + [(0, 2)], False, 'first_set')
             add(src, fn, 2, d2, True, 'even', B=1)
             if tier != 'quick' or src in ('dict', srcs[1]):
